@@ -117,7 +117,7 @@ func H_C03_Paging() {
 		}
 		dead = vOr(dead, vAnd(last, vAnd(vNot(kvLive(h, i, now)), vHasPrefix(h[i].key, prefix))))
 	}
-	vKnown("KF-C03-dead-records-consume-offset-and-limit", dead)
+	vKnown("KF-C03-dead-records-consume-offset-and-limit", vAnd(dead, mode == HintBPTSparseIdxMode))
 	_ = db.View(func(tx *Tx) error {
 		es, _, err := tx.PrefixScan("a", prefix, offset, limit)
 		checkWindow("c03.prefixscan", es, err, h, "a", now, func(k []byte) bool { return vHasPrefix(k, prefix) }, offset, limit)
